@@ -683,3 +683,43 @@ def conditions_at(g: CFG, func_node: ast.AST, target: ast.AST, pm: dict[int, ast
                 cond = t.ast if lab == "true" else negate(t.ast)
                 out.extend(_conjuncts(cond))
     return out
+
+
+def read_copy_write_sites(func_node: ast.AST) -> list[tuple[ast.AST, str, str]]:
+    """`tmp = <copy of self.X[k] / self.X.get(k, ..)>; ...; self.X[k] = tmp` (or the same in one expression): the element of
+    a shared container is replaced by a value computed from a copy of its previous content.  Without a lock around both steps
+    a concurrent writer's update between the read and the store is lost.  Returns (store node, attribute, local name)."""
+    out: list[tuple[ast.AST, str, str]] = []
+
+    def reads_elem(v: ast.AST, attr: str) -> bool:
+        for x in ast.walk(v):
+            if isinstance(x, ast.Subscript) and self_attr(x) == attr and isinstance(x.value, ast.Attribute):
+                return True
+            if isinstance(x, ast.Call) and call_name(x) in ("get", "setdefault") and self_attr(x.func) == attr and isinstance(x.func.value, ast.Attribute):
+                return True
+        return False
+
+    derived: dict[str, set[str]] = {}  # local name -> store attributes its value was copied from
+    for n in walk_no_nested(func_node):
+        if isinstance(n, ast.Assign) and len(n.targets) == 1 and isinstance(n.targets[0], ast.Name):
+            for a in {self_attr(x) for x in ast.walk(n.value) if isinstance(x, (ast.Subscript, ast.Call)) and self_attr(x)}:
+                if a and reads_elem(n.value, a):
+                    derived.setdefault(n.targets[0].id, set()).add(a)
+    pm = parent_map(func_node)
+    for n in walk_no_nested(func_node):
+        if not isinstance(n, ast.Assign):
+            continue
+        for t in n.targets:
+            if isinstance(t, ast.Subscript) and isinstance(t.value, ast.Attribute) and self_attr(t):
+                a = self_attr(t)
+                src = None
+                if isinstance(n.value, ast.Name) and a in derived.get(n.value.id, ()):
+                    src = n.value.id
+                elif not isinstance(n.value, ast.Name) and reads_elem(n.value, a):
+                    src = "<expression>"
+                if src is None:
+                    continue
+                locked = any(isinstance(x, (ast.With, ast.AsyncWith)) and any("lock" in ast.unparse(i.context_expr).lower() for i in x.items) for x in ancestors(pm, n))
+                if not locked:
+                    out.append((n, a, src))
+    return out
